@@ -240,6 +240,17 @@ func newFacts(parent *facts, conj []*term.Term, all []*term.Term) *facts {
 					}
 					tight(b, 0, k)
 				}
+			} else if !neg {
+				// a <= b with both symbolic: bound each side by the other's range
+				ra, rb := f.rangeOf(a), f.rangeOf(b)
+				if rb.hi < wmask(a.W()) {
+					tight(a, 0, rb.hi)
+				}
+				if ra.lo > 0 {
+					tight(b, ra.lo, wmask(b.W()))
+				}
+				delete(f.memo, a.ID)
+				delete(f.memo, b.ID)
 			}
 		case term.OSlt, term.OSle:
 			a, b := c.Args[0], c.Args[1]
@@ -273,6 +284,17 @@ func newFacts(parent *facts, conj []*term.Term, all []*term.Term) *facts {
 					}
 					stight(b, -1<<63, k)
 				}
+			} else if !neg {
+				// a <= b (signed), both symbolic: when b is known non-negative and bounded, a inherits the bound
+				half := uint64(1) << uint(a.W()-1)
+				if rb := f.rangeOf(b); rb.hi < half {
+					stight(a, -1<<63, int64(rb.hi))
+				}
+				if ra := f.rangeOf(a); ra.hi < half && ra.lo > 0 {
+					stight(b, int64(ra.lo), 1<<63-1)
+				}
+				delete(f.memo, a.ID)
+				delete(f.memo, b.ID)
 			}
 		case term.OEq:
 			a, b := c.Args[0], c.Args[1]
@@ -356,6 +378,9 @@ func newFacts(parent *facts, conj []*term.Term, all []*term.Term) *facts {
 			f.empty = true
 		}
 	}
+	// ranges computed while the facts were still being gathered may be stale
+	f.memo = map[int]rng{}
+	f.bm = map[int]int8{}
 	return f
 }
 
